@@ -272,9 +272,15 @@ fn grammar_module(s: &GSpec, out: &mut String) {
 
 fn shard_crate(dir: &Path, name: &str, specs: &[&GSpec]) -> bool {
     let mut changed = false;
+    let extras = specs.iter().any(|s| s.extras);
+    let (f1, f2) = if extras {
+        (", features = [\"grammar-extras\"]", ", features = [\"extras\"]")
+    } else {
+        ("", "")
+    };
     let cargo = format!(
-        "[package]\nname = \"{}\"\nversion = \"0.1.0\"\nedition = \"2021\"\n\n[dependencies]\npest = {{ workspace = true }}\npest_derive = {{ workspace = true }}\npest_typed = {{ workspace = true }}\npest_typed_derive = {{ workspace = true }}\nobs = {{ workspace = true }}\npegx = {{ workspace = true }}\nrefpeg = {{ workspace = true }}\n",
-        name
+        "[package]\nname = \"{}\"\nversion = \"0.1.0\"\nedition = \"2021\"\n\n[dependencies]\npest = {{ workspace = true }}\npest_derive = {{ workspace = true{} }}\npest_typed = {{ workspace = true }}\npest_typed_derive = {{ workspace = true{} }}\nobs = {{ workspace = true }}\npegx = {{ workspace = true }}\nrefpeg = {{ workspace = true{} }}\n",
+        name, f1, f1, f2
     );
     changed |= write_if_changed(&dir.join("Cargo.toml"), &cargo);
     let mut src = String::new();
